@@ -24,6 +24,7 @@ import (
 	"path/filepath"
 	"reflect"
 	"runtime"
+	"runtime/debug"
 	"sort"
 	"strconv"
 	"strings"
@@ -389,13 +390,18 @@ func (w *c15Worker) reference(o *c15Opt) *c15Ref {
 	return r
 }
 
-func c15Feat(clause string, c *c15Case, o *c15Opt, extra map[string]any) map[string]any {
+func c15NSources(c *c15Case) int {
 	n := 0
 	for _, s := range []string{c.Cmd, c.Fenv, c.Env, c.File} {
 		if s != c15None && s != "" {
 			n++
 		}
 	}
+	return n
+}
+
+func c15Feat(clause string, c *c15Case, o *c15Opt, extra map[string]any) map[string]any {
+	n := c15NSources(c)
 	f := map[string]any{"sub": "sources", "clause": clause, "kind": o.Kind, "winner": c.Winner, "nsources": n,
 		"junk": strings.Join(c.Junk, "+"), "fstate": c.Fstate}
 	for k, v := range extra {
@@ -660,6 +666,8 @@ func c15RunShard(t *testing.T, shard, shards int) {
 	seed := verifx.Seed()
 	w := &c15Worker{opts: opts, path: filepath.Join(os.Getenv("VERIF_TMP"), fmt.Sprintf("c15-%d.properties", shard))}
 	extraEvery := int64(verifx.EnvInt("VERIF_C15_EXTRA_EVERY", 1))
+	deepEvery := int64(verifx.EnvInt("VERIF_C15_DEEP_EVERY", 1))
+	debug.SetGCPercent(400)
 	nopts := 0
 	for oi := range opts {
 		o := &opts[oi]
@@ -708,6 +716,11 @@ func c15RunShard(t *testing.T, shard, shards int) {
 			idx := i + oi
 			if c.Opt != "" {
 				idx = c.Idx
+			}
+			// combinations of three and four sources are replayed for a rotating share of the options in the quick tier
+			if c.Opt == "" && deepEvery > 1 && c15NSources(c) >= 3 && (int64(i)+int64(oi)+seed)%deepEvery != 0 {
+				w.skipped++
+				continue
 			}
 			if !w.runCase(c, o, ref, idx) {
 				w.skipped++
